@@ -9,7 +9,7 @@ CONSTANTS
   Kinds = {"arch", "param"}
   MaxDec = 4
   MaxDecHi = 4
-  MaxOps = 7
+  MaxOps = 100
 INVARIANT GramDef
 INVARIANT IsInverse
 INVARIANT Symmetric
